@@ -96,6 +96,8 @@ run_cmd do
   let names := env.header.moduleData[idx.toNat]!.constNames
   for n in names do
     if n.isInternalDetail then continue
+    -- theorems the `inductive` / `structure` commands generate are not property statements
+    if (match n with | .str _ s => ["injEq", "inj", "sizeOf_spec", "eq_1", "eq_def", "ext", "ext_iff", "mk.injEq", "mk.inj"].contains s || s.startsWith "eq_" | _ => false) then continue
     match env.find? n with
     | some (.thmInfo _) =>
       let axs ← Lean.collectAxioms n
